@@ -345,7 +345,10 @@ def check(F, run, tier):
         # (64-bit accumulations of container sizes in counting helpers are not conversions into a file field)
         o = [x for x in o if "accumulation in" not in x.required]
         run.add(o)
-        k += len(o)
+        # a checked conversion moved into a helper is exercised once per call of the helper: the floor (a guard against
+        # vacuity, counted in places where a count enters a file field) counts those calls
+        sites_ = sum(1 for g_ in swept + [wr_] for nd_ in g_.nodes if nd_["k"] in CALLS and g_.key != f_.key and any(c_.key == f_.key for c_ in F.callees(nd_)))
+        k += len(o) * max(1, sites_ if not f_.cls else 1)
     run.floor("R-NARROW", k, 7)
     run.add(frame_init(F, S))
     run.add(run_witnesses(F, "C10", WITNESSES))
